@@ -58,7 +58,8 @@ Spec == Init /\ [][Next]_vars
 (* ---- laws of the reference ---- *)
 C10Consistent == Consistent(st)
 C12Atomic == [][last'[2] = "rej" => st' = st]_vars
-C09OrderKept == [][\A p \in Parents : OrderKept(st, st', p)]_vars
+\* (assigning an element that is already attached somewhere moves it: the one edit that may reorder)
+C09OrderKept == [][last'[1].op # "SetObj" => \A p \in Parents : OrderKept(st, st', p)]_vars
 \* an edit through one parent never changes the other parent unless the operation names it (move / copy source is read-only)
 C09Locality == [][\A p \in Parents :
                     (st'.kids[p] # st.kids[p]) =>
